@@ -1018,13 +1018,18 @@ def _unchanged(before, module, key, what):
     check(not d, key, lambda: f"{what} changed: {d[:4]}")
 
 
-def _sgd_step_check(key, old, new, g, lr, kappa=0.0):
+def _sgd_step_check(key, old, new, g, lr, kappa=0.0, extra=None):
     """new == old - lr * g up to float32 rounding of the subtraction and of the
-    (jitted) gradient computed inside the wrapper."""
+    (jitted) gradient computed inside the wrapper.  ``extra``: measured per-leaf float32 conditioning of the
+    gradient (pn.grad_sensitivity), e.g. a saturated tanh whose derivative 1 - tanh^2 cancels: the jitted and the
+    eager gradient then differ by more than 1e-3 of a gradient that is itself tiny (witness
+    replays/regress/C12_dpg_falsealarm_saturated_tanh_sgd_step.json)."""
     G = max(float(np.max(np.abs(v))) for v in g.values())
     for k in old:
         # 2e-7: float32 noise floor of a gradient whose intermediate values are O(1), whatever its own size
         tol = 4e-7 * np.abs(old[k]) + lr * (1e-3 * np.abs(g[k]) + (2e-5 + 4e-7 * kappa) * G + 2e-7)
+        if extra is not None:
+            tol = tol + lr * np.asarray(extra[k])
         check(bool(np.all(np.abs(new[k] - (old[k] - lr * g[k])) <= tol)), key,
               lambda: f"{k}: max dev {np.max(np.abs(new[k] - (old[k] - lr * g[k])))}")
 
@@ -1181,8 +1186,8 @@ def run_dpg(case):
     check(close(float(loss), ref, scale=vscale), sub + ".value", lambda: f"loss={float(loss)} ref={ref} q={qv.tolist()}")
     gref = pn.grad_of(target, objective, consts)
     # SALE / MR.Q critics and encoders normalise (LayerNorm, avg-L1): allow the measured float32 conditioning
-    g = _grad_check(sub + ".grad", grad, gref, None, f"loss={float(loss)}",
-                    extra=pn.grad_sensitivity(target, objective, consts, gref))
+    sens = pn.grad_sensitivity(target, objective, consts, gref)
+    g = _grad_check(sub + ".grad", grad, gref, None, f"loss={float(loss)}", extra=sens)
     gn = pn.grad_norm(gref)
     if case["wrapper"] and wrapper is not None:
         before = {k: state_bytes(m) for k, m in others.items()}
@@ -1192,7 +1197,7 @@ def run_dpg(case):
         check(close(float(wl), ref, scale=vscale), sub + ".update.returns_loss", lambda: f"{float(wl)} vs {ref}")
         for k, m in others.items():
             _unchanged(before[k], m, sub + ".update.gradient_reaches_only_actor", k)
-        _sgd_step_check(sub + ".update.actor_moves_by_minus_lr_grad", old, pn.flat_params(target), g, lr)
+        _sgd_step_check(sub + ".update.actor_moves_by_minus_lr_grad", old, pn.flat_params(target), g, lr, extra=sens)
         labels.append("wrapper")
     labels.append("grad>0" if gn > 0 else "grad=0")
     return Outcome(labels=labels, nontrivial=n >= 2 and gn > 0)
